@@ -202,6 +202,9 @@ class Processes:
 
         self._buffer.pop(process_name, None)
         clear_group(process_name)
+        # what was queued for this instance dies with it: the head of the queue can be the unwritten
+        # tail of an event, and a process respawned under the same name would read it first
+        self._write_queue.pop(process_name, None)
         self._update_fds()
         thread = Thread(target=self._terminate_run, args=(process, process_name))
         thread.start()
